@@ -214,8 +214,12 @@ def run(ctx):
     extra = res.get("extra") or {}
     if res["replayed"] < n_walks:
         raise MachineryError("replay executed %d of %d behaviours\n%s" % (res["replayed"], n_walks, res["_log"][-2000:]))
-    if not res["mismatches"] and res["steps"] < steps_planned:
-        raise MachineryError("replay executed %d of %d planned steps" % (res["steps"], steps_planned))
+    # steps after a cap eviction among equal expiries are legitimately not executed (the victim is
+    # unspecified, so the walk ends there); everything else must have been executed
+    accounted = res["steps"] + int(extra.get("steps_cut_at_tie", 0)) + int(extra.get("steps_skipped_after_desync", 0))
+    if not res["mismatches"] and accounted < steps_planned:
+        raise MachineryError("replay executed %d (+%d cut at ties) of %d planned steps" % (
+            res["steps"], int(extra.get("steps_cut_at_tie", 0)), steps_planned))
     if res["distinct"] < edges_total // 2:
         raise MachineryError("replay compared only %d of %d distinct transitions" % (res["distinct"], edges_total))
     log("C09: full model %d states / %d transitions; replay graphs %d transitions, %d walks, %d steps executed, "
